@@ -337,3 +337,25 @@ Example C03_log_bottom_example :
   /\ snd (fst st3) = mkbg [LLine [108]] [[]] 1 [[67;48]]
   /\ screen 4 (snd st3) = map (pad 4) [[36]; [108]; []; []; [67;48]].
 Proof. vm_compute. repeat split. Qed.
+
+(** ------------------------------------------------------------------------------------------
+    Second audit, m6: the closure proviso of FitsAll / FitsAllB is [closure_ok] now - a suspend
+    closure may write ANY lines, empty ones included, except an empty FIRST line while the region
+    is empty (last_line_count + zombie_lines_count = 0) and cursor_below is false (the situation of
+    C03_empty_line_swallowed_refuted, plus its harmless twin in which the last terminal write was a
+    write_line or nothing was written yet: the model state does not tell them apart).  Example:
+    empty lines first / in the middle / last while a bar is on screen (the clear of suspend puts
+    the cursor at column 0), and an empty first line right after a println that fills the row
+    exactly - with a live row below it: inside FitsAll, every line gets its row. *)
+Definition ec_s0 : sys :=
+  mksys [new_bar (Some 10) FAndLeave [PLit [65]; PPos] THidden 0] (new_ms (TTerm (new_ttarget None 0))) 0.
+Definition ec_h : list (N * op) :=
+  [(0, OInsert BEnd 0); (1000000, OTick 0); (2000000, OMSuspend [[]; [120]; []]);
+   (3000000, OMPrintln [104;101;108;108;111;33]); (4000000, OMSuspend [[]]); (5000000, OTick 0)].
+
+Example C03_empty_closure_lines_covered :
+  let st := ms_run 6 10 (ec_s0, mghost0, term_init) ec_h in
+  FitsAll 6 10 ec_s0 ec_h
+  /\ hist_log 6 10 ec_s0 ec_h = [[]; [120]; []; [104;101;108;108;111;33]; []]
+  /\ screen 6 (snd st) = map (pad 6) [[]; [120]; []; [104;101;108;108;111;33]; []; [65;48]].
+Proof. split; [vm_compute; repeat (split || intro)|]. vm_compute. repeat split. Qed.
